@@ -200,10 +200,10 @@ def describe(case):
 # axioms of the theorems the table refers to
 
 REF_TMPL = """import Lean
-import ParolModel.Props.C26
+import ParolModel.Props.C26b
 open Lean Elab Command ParolModel.Panic
 run_cmd do
-  let names := ((panicSites.flatMap (·.dischargedBy)) ++ chain.filterMap (·.totalBy) ++ chain.filterMap (·.preEstablishedBy)).eraseDups
+  let names := ((panicSites2.flatMap (·.dischargedBy)) ++ chain2.filterMap (·.totalBy) ++ chain2.filterMap (·.preEstablishedBy)).eraseDups
   for s in names do
     let ax ← collectAxioms s.toName
     logInfo m!"REF {s} :: {ax.toList}"
@@ -226,7 +226,7 @@ def referenced_theorems():
 def extra(ctx, state):
     listed = {k["key"]: k for k in common.load_known(ctx.pid)}
     # --- the table, as the Lean driver sees it
-    summ = common.model_lines(["c26-summary"])[0]
+    summ = common.model_lines(["c26-summary2"])[0]     # the UPDATED table (Model/PanicSites2.lean)
     table = {k: int(v) for k, v in (x.split("=") for x in summ.split())} if "=" in summ else {}
     okr, refs = referenced_theorems()
     nonstd = {n: [a for a in ax if a not in common.ALLOWED_AXIOMS] for n, ax in refs.items()}
@@ -358,6 +358,7 @@ def nontrivial(case):
 SPEC = {
     "prop": "c26",
     "mod": "ParolModel.Props.C26",
+    "more_mods": ["ParolModel.Props.C26b"],
     "files": FILES,
     "nontrivial": nontrivial,
     "extra": extra,
@@ -387,10 +388,17 @@ CLAIM = {
             "`Start symbol not found` expect is unreachable after the productivity check), stage_total_left_factor_round, stage_total_augment, "
             "pre_established_analysis / pre_established_c05 (a grammar that passes the checks lies in the class where C06/C05 prove FIRST/FOLLOW/decidable exact — "
             "new bridge from `no left-recursive non-terminal` to a rank function on the left-corner relation), stage_total_terminals (Terminals::new total exactly "
-            "below 4095; f10_witness), stage_total_unite. A table of all 191 panic-capable constructs of the 16 modelled files (regenerated from /repo and "
-            "compared per file/function/kind on every run) records how each is discharged: 111 by named theorems, 42 by inspection of an adjacent guard or "
-            "constant, 38 NOT discharged (9 off the generation path, 29 open, e.g. the minimisation's asserts, cache indexing by k, front-end data invariants). "
-            "Three chain links are not proved (Terminals limit — finding F10; tuple sets handed to `unite` are prefix-free/disjoint; minimisation). Everything "
+            "below 4095; f10_witness), stage_total_unite; and (Props/C26b.lean) stage_total_minimise (CompiledDFA::minimize never trips a debug_assert/unwrap/panic! "
+            "on automata whose accepting states are leaves, for every hash-map order; the model's fuel suffices), pre_established_minimise, pre_established_unite "
+            "(the tuple sets calculate_k_tuples hands to `unite` for an accepted grammar are non-empty, pairwise disjoint, prefix-free), stage_total_unite2 + "
+            "unite_fuel_suffices (the uniting loop yields an automaton; its fuel outcome does not exist), stage_total_decision / pre_established_decision (no cache "
+            "slot index panic for max_k <= MAX_K, which Builder::max_lookahead establishes; f37_witness), genTables_no_panic / genTables_outcomes (the composed "
+            "generator model of C01c answers tables, MaxKExceeded, not-part or model fuel — never panic, never conflict). A table of all 191 panic-capable "
+            "constructs of the 16 modelled files (regenerated from /repo and compared per file/function/kind on every run; updated table in "
+            "Model/PanicSites2.lean) records how each is discharged: 128 by named theorems, 42 by inspection of an adjacent guard or constant, 21 NOT discharged "
+            "(9 off the generation path, 12 open: the unreachable!s for the deprecated Symbol::S/Push/Pop variants — a front-end invariant —, the k-field "
+            "assertions of KTuples, and helpers outside the modelled pipeline). One chain link is not established (Terminals limit — finding F10); the "
+            "first/follow link has no totality theorem (its models have no panic branch; termination of the fixpoint loops is not proved). Everything "
             "else — PAR parser and actions, GrammarConfig::try_from, type deduction, symbol table, rendering, lalry, scnr2_generate, and the end-to-end statement "
             "for all byte strings — is EXPLORED only (real pipeline under catch_unwind on mutated/generated grammars). The full statement `NeverPanics` is not "
             "proved and is false on the unchanged code: findings F10 and F36 are reproduced on every run (F1, F13 — lalry's unreachable!() —, F35 and F37 have been repaired in parol and are kept as regression cases).",
